@@ -235,12 +235,89 @@ def r10_5(prog, rep):
     obl(rep, f, fin[0] if fin else f.node, "R10.5", L is not None, "factors_with_new_levels is returned as a tuple of the collected names")
     if L is None:
         return
-    obl(rep, f, lp, "R10.5", pre.env.get(L) == SX.Opaque("[]"), "the list starts empty for every evaluation (no carry-over between calls)",
+    init = pre.env.get(L)
+    if init is None:
+        # the collection is built in a pass of its own AFTER the slices are complete:
+        #   L = {t.factor.name: None for t in <same terms> if <old width of t> != <width of container.slices[t.name]>}
+        # container.slices[t.name] then is the slice stored for t by the loop: the comprehension is read as the guarded report of
+        # the same iteration
+        import copy as _copy
+        d = [st for st in body if isinstance(st, ast.Assign) and len(st.targets) == 1 and unparse(st.targets[0]) == L and body.index(st) > body.index(lp)]
+        comp = d[0].value if len(d) == 1 else None
+        if isinstance(comp, ast.Call) and dotted(comp.func) in ("dict.fromkeys", "list", "tuple") and len(comp.args) == 1:
+            comp = comp.args[0]
+        stores_ = [e for e in ex.effects if e[0] == "store" and e[1][0] == f"{container}.slices"]
+        if not (isinstance(comp, (ast.DictComp, ast.ListComp, ast.GeneratorExp)) and len(comp.generators) == 1 and isinstance(comp.generators[0].target, ast.Name)
+                and M["coll"](comp.generators[0].iter) == M["it"] and len(stores_) == 1 and isinstance(stores_[0][1][2], SX.Slice)):
+            rep.defer(f"R10.5: `{L}` is not built in the slice loop nor by a comprehension over the same terms after it ({q})")
+            return
+        g = comp.generators[0]
+        key = comp.key if isinstance(comp, ast.DictComp) else comp.elt
+        stored_txt = SX.render(stores_[0][1][2])
+
+        class ToIter(ast.NodeTransformer):
+            def visit_Subscript(self, n):
+                self.generic_visit(n)
+                if unparse(n.value) == f"{container}.slices" and unparse(n.slice) == f"{tv}.name":
+                    return ast.parse(stored_txt, mode="eval").body
+                return n
+
+            def visit_Name(self, n):
+                if n.id == g.target.id:
+                    return ast.copy_location(ast.Name(id=tv, ctx=n.ctx), n)
+                return n
+
+        conds = [ToIter().visit(_copy.deepcopy(c)) for c in g.ifs]
+        key = ToIter().visit(_copy.deepcopy(key))
+        obl(rep, f, d[0], "R10.5", True, "the collection is built anew from the finished slices on every evaluation (no carry-over between calls)")
+        okn = unparse(key) == f"{tv}.factor.name"
+        obl(rep, f, d[0], "R10.5", okn, "the reported name is the grouping factor's name of the term being evaluated", "", f"collected: {unparse(key)}")
+        val = stores_[0][1][2]
+        W = SX.add(val.hi, val.lo, -1)
+        arr = f"{tv}.eval_new_data({data})"
+        obl(rep, f, stores_[0][1][3], "R10.5", W is not None and SX.width_of(W, arr) and stores_[0][2] == (),
+            "every term's slice is rebuilt from the NEW width of its block (later terms shift when a block widens)", SX.render(W) if W is not None else "")
+        fresh = SX.SymExec()
+        old_slice = f"self.slices[{tv}.name]"
+        sides = set()
+        for c in conds:
+            if isinstance(c, ast.Compare) and len(c.ops) == 1 and isinstance(c.ops[0], ast.NotEq):
+                for side in (c.left, c.comparators[0]):
+                    txt = unparse(side)
+                    if txt in (f"get_slice_width({old_slice})", f"{old_slice}.stop - {old_slice}.start"):
+                        sides.add("old")
+                        continue
+                    arg = side.args[0] if isinstance(side, ast.Call) and dotted(side.func) == "get_slice_width" and len(side.args) == 1 else None
+                    v = fresh.val(arg) if arg is not None else None
+                    if isinstance(v, SX.Slice):
+                        w = SX.add(v.hi, v.lo, -1)
+                        sides.add("new" if (w is not None and SX.width_of(w, arr)) else f"other `{txt}`")
+                    else:
+                        sides.add(f"`{txt}`")
+        unique = isinstance(comp, ast.DictComp) or (isinstance(d[0].value, ast.Call) and dotted(d[0].value.func) == "dict.fromkeys")
+        obl(rep, f, d[0], "R10.5", len(conds) == 1 and sides == {"old", "new"} and unique,
+            "a factor is reported iff the training slice width of the SAME term differs from its new width, once per factor",
+            str(sorted(sides)), f"the report is guarded by {[unparse(c) for c in conds]} (sides {sorted(sides)}, unique={unique})")
+        gw = prog.fn("matrices.get_slice_width")
+        rets = [n for n in walk_local(gw.node) if isinstance(n, ast.Return)]
+        obl(rep, gw, gw.node, "R10.5", len(rets) == 1 and unparse(rets[0].value) == f"{gw.params[0]}.stop - {gw.params[0]}.start", "get_slice_width = stop - start")
+        return
+    as_dict = init in (SX.Opaque("{}"), SX.Opaque("dict()"))
+    obl(rep, f, lp, "R10.5", init == SX.Opaque("[]") or as_dict, "the collection starts empty for every evaluation (no carry-over between calls)",
         "", f"`{L}` is `{SX.render(pre.env[L]) if L in pre.env else 'undefined'}` before the loop")
-    apps = [e for e in ex.effects if e[0] == "call" and e[1][0] == f"{L}.append"]
-    ok = len(apps) == 1 and len(apps[0][1][1]) == 1 and SX.render(apps[0][1][1][0]) == f"{tv}.factor.name"
+    if as_dict:
+        # a dict used as an insertion-ordered set: `L[name] = <anything>`; tuple(L) lists the keys in order of first insertion
+        dst = [e for e in ex.effects if e[0] == "store" and e[1][0] == L]
+        apps = [("call", (f"{L}.append", [SX.Opaque(e[1][1])], e[1][3]), e[2]) for e in dst]
+        apps += [("call", (f"{L}.append", [e[1][1][0]], e[1][2]), e[2]) for e in ex.effects
+                 if e[0] == "call" and e[1][0] == f"{L}.setdefault" and len(e[1][1]) in (1, 2)]
+        ok = len(apps) == 1 and SX.render(apps[0][1][1][0]) == f"{tv}.factor.name"
+        dedup_late = True  # keys are unique by construction
+    else:
+        apps = [e for e in ex.effects if e[0] == "call" and e[1][0] == f"{L}.append"]
+        ok = len(apps) == 1 and len(apps[0][1][1]) == 1 and SX.render(apps[0][1][1][0]) == f"{tv}.factor.name"
     obl(rep, f, apps[0][1][2] if apps else lp, "R10.5", ok, "the reported name is the grouping factor's name of the term being evaluated",
-        "", f"appended: {[SX.render(a[1][1][0]) for a in apps if a[1][1]]}")
+        "", f"collected: {[SX.render(a[1][1][0]) for a in apps if a[1][1]]}")
     # the slice stored for the term and its width
     stores = [e for e in ex.effects if e[0] == "store" and e[1][0] == f"{container}.slices"]
     val = stores[0][1][2] if len(stores) == 1 else None
